@@ -698,7 +698,8 @@ func c15Run(s *Shard) {
 		maxSeed = 16384
 	}
 	s.Bounds["frequency_seeds"] = maxSeed
-	for _, method := range append(append([]string{}, allMethods...), "majorityHeuristic#zero", "aspectEliminationHeuristic#zero", "weightedSum#zero") {
+	for _, method := range append(append([]string{}, allMethods...), "majorityHeuristic#zero", "aspectEliminationHeuristic#zero", "weightedSum#zero",
+		"weightedSum#n2", "majorityHeuristic#n2", "weightedSum#n4", "electreIII#n4") { // an even number of criteria (2, 4) as well
 		for _, ord := range []string{"weakestByProbability", "strongestByProbability"} {
 			for lo := int64(0); lo < maxSeed; lo += 512 {
 				if !s.Take() {
@@ -720,6 +721,12 @@ func c15FreqCfg(method, ord string) c15Cfg {
 	if strings.HasSuffix(method, "#zero") {
 		method = strings.TrimSuffix(method, "#zero")
 		w = []float64{0, 1, 3}
+	}
+	if strings.HasSuffix(method, "#n2") {
+		return c15Cfg{Method: strings.TrimSuffix(method, "#n2"), N: 2, Vals: [][]float64{{1, 3}, {1, 3}}, W: []float64{1, 4}, Order: ord, Script: -1}
+	}
+	if strings.HasSuffix(method, "#n4") {
+		return c15Cfg{Method: strings.TrimSuffix(method, "#n4"), N: 4, Vals: [][]float64{{1, 2, 3, 4}, {1, 2, 3, 4}}, W: []float64{1, 2, 4, 8}, Order: ord, Script: -1}
 	}
 	return c15Cfg{Method: method, N: 3, Vals: [][]float64{{1, 2, 3}, {1, 2, 3}}, W: w, Order: ord, Script: -1}
 }
